@@ -165,6 +165,9 @@ impl Node {
 
     pub fn deliver(&mut self, peer: PeerIndex, protocol: ProtocolId, data: Bytes) {
         self.exchanges += 1;
+        if std::env::var("VERIF_DEBUG_NODE").is_ok() {
+            eprintln!("    deliver: {}", request_name(protocol, &data));
+        }
         let i = self.im();
         if protocol == SupportProtocols::LightClient.protocol_id() {
             block_on(i.lc.received(as_ctx(&i.nc_lc), peer, data));
@@ -192,6 +195,14 @@ impl Node {
                 gone.extend(rec.disconnected);
                 sent.extend(rec.sent);
             }
+        }
+        if std::env::var("VERIF_DEBUG_NODE").is_ok() {
+            eprintln!(
+                "    collect: bans {:?} gone {:?} sent {:?}",
+                new_bans,
+                gone,
+                sent.iter().map(|(p, _, d)| request_name(*p, d)).collect::<Vec<_>>()
+            );
         }
         self.bans.extend(new_bans);
         for p in gone {
